@@ -1,1 +1,3 @@
 import Dnp3.Props.C06
+import Dnp3.Props.C07
+import Dnp3.Props.C08
